@@ -60,6 +60,8 @@ impl Distribution for Binomial {
         };
 
         if switch {
+            #[cfg(feature = "verif-hooks")]
+            crate::verif_hooks::tick(crate::verif_hooks::Site::BinomialFlip);
             (self.n - res) as f64
         } else {
             res as f64
@@ -75,12 +77,16 @@ impl Distribution1D for Binomial {
 }
 
 pub fn binomial_inversion(n: u64, p: f64) -> u64 {
+    #[cfg(feature = "verif-hooks")]
+    crate::verif_hooks::tick(crate::verif_hooks::Site::BinomialInvCall);
     let s = p / (1. - p);
     let a = ((n + 1) as f64) * s;
     let mut r = (1. - p).powi(n as i32);
     let mut u = alea::f64();
     let mut x: u64 = 0;
     while u > r as f64 {
+        #[cfg(feature = "verif-hooks")]
+        crate::verif_hooks::tick(crate::verif_hooks::Site::BinomialInv);
         u -= r;
         x += 1;
         r *= a / (x as f64) - s;
@@ -90,6 +96,8 @@ pub fn binomial_inversion(n: u64, p: f64) -> u64 {
 
 pub fn binomial_btpe(n: u64, p: f64) -> u64 {
     // step 0
+    #[cfg(feature = "verif-hooks")]
+    crate::verif_hooks::tick(crate::verif_hooks::Site::BinomialBtpeCall);
     let nf = n as f64;
     let r = if p <= 0.5 { p } else { 1. - p };
     let q = 1. - r;
@@ -114,6 +122,8 @@ pub fn binomial_btpe(n: u64, p: f64) -> u64 {
 
     loop {
         // step 1
+        #[cfg(feature = "verif-hooks")]
+        crate::verif_hooks::tick(crate::verif_hooks::Site::BinomialBtpe);
         let u = ugen.sample();
         let mut v = vgen.sample();
 
@@ -132,6 +142,8 @@ pub fn binomial_btpe(n: u64, p: f64) -> u64 {
             u.partial_cmp(&p1),
             None | Some(std::cmp::Ordering::Equal) | Some(std::cmp::Ordering::Less)
         ) {
+            #[cfg(feature = "verif-hooks")]
+            crate::verif_hooks::tick(crate::verif_hooks::Site::Btpe1);
             y = (xm - p1 * v + u).floor();
             // go to step 6
             break;
@@ -142,6 +154,8 @@ pub fn binomial_btpe(n: u64, p: f64) -> u64 {
             None | Some(std::cmp::Ordering::Equal) | Some(std::cmp::Ordering::Less)
         ) {
             // step 2
+            #[cfg(feature = "verif-hooks")]
+            crate::verif_hooks::tick(crate::verif_hooks::Site::Btpe2);
             let x = xl + (u - p1) / c;
             v = v * c + 1. - (m - x + 0.5).abs() / p1;
             if v > 1. {
@@ -156,6 +170,8 @@ pub fn binomial_btpe(n: u64, p: f64) -> u64 {
             None | Some(std::cmp::Ordering::Equal) | Some(std::cmp::Ordering::Less)
         ) {
             // step 3
+            #[cfg(feature = "verif-hooks")]
+            crate::verif_hooks::tick(crate::verif_hooks::Site::Btpe3);
             y = (xl + v.ln() / ll).floor();
             if y < 0. {
                 // go to step 1
@@ -166,6 +182,8 @@ pub fn binomial_btpe(n: u64, p: f64) -> u64 {
             }
         } else {
             // step 4
+            #[cfg(feature = "verif-hooks")]
+            crate::verif_hooks::tick(crate::verif_hooks::Site::Btpe4);
             y = (xr - v.ln() / lr).floor();
             if y > nf {
                 // go to step 1
@@ -180,6 +198,8 @@ pub fn binomial_btpe(n: u64, p: f64) -> u64 {
         let k = (y - m).abs();
         if !(k > 20. && k < 0.5 * (nrq) - 1.) {
             // step 5.1
+            #[cfg(feature = "verif-hooks")]
+            crate::verif_hooks::tick(crate::verif_hooks::Site::Btpe51);
             let s = p / q;
             let a = s * (n as f64 + 1.);
             let mut f = 1.;
@@ -188,6 +208,8 @@ pub fn binomial_btpe(n: u64, p: f64) -> u64 {
                 let mut i = m;
                 loop {
                     i += 1.;
+                    #[cfg(feature = "verif-hooks")]
+                    crate::verif_hooks::tick(crate::verif_hooks::Site::Btpe51Loop);
                     f *= (a / i) - s;
                     if (i - y).abs() < f64::EPSILON {
                         break;
@@ -197,6 +219,8 @@ pub fn binomial_btpe(n: u64, p: f64) -> u64 {
                 let mut i = y;
                 loop {
                     i += 1.;
+                    #[cfg(feature = "verif-hooks")]
+                    crate::verif_hooks::tick(crate::verif_hooks::Site::Btpe51Loop);
                     f /= (a / i) - s;
                     if (i - m).abs() < f64::EPSILON {
                         break;
@@ -213,6 +237,8 @@ pub fn binomial_btpe(n: u64, p: f64) -> u64 {
         }
 
         // step 5.2
+        #[cfg(feature = "verif-hooks")]
+        crate::verif_hooks::tick(crate::verif_hooks::Site::Btpe52);
         let rho = (k / nrq) * ((k * (k / 3. + 0.625) + 1. / 6.) / nrq + 0.5);
         let t = -k * k / (2. * nrq);
         let biga = v.ln();
@@ -226,6 +252,8 @@ pub fn binomial_btpe(n: u64, p: f64) -> u64 {
         }
 
         // step 5.3
+        #[cfg(feature = "verif-hooks")]
+        crate::verif_hooks::tick(crate::verif_hooks::Site::Btpe53);
         let x1 = y + 1.;
         let f1 = m + 1.;
         let z = nf + 1. - m;
